@@ -14,6 +14,8 @@ import ast
 import atexit
 import itertools
 import json
+import keyword
+import re
 import math
 import multiprocessing as mp
 import os
@@ -943,6 +945,8 @@ def parse_doc(path: Path):
                         _val(s.getInitialConcentration()) if s.isSetInitialConcentration() else None)]
                     for s in m.getListOfSpecies()],
         "compartments": [[c.getId(), _val(c.getSize())] for c in m.getListOfCompartments()],
+        "modifiers": [[r.getId(), [x.getSpecies() for x in r.getListOfModifiers()]] for r in m.getListOfReactions()],
+        "model_id": m.getId(), "unit_ids": [u.getId() for u in m.getListOfUnitDefinitions()],
         "species_attrs": [[s.getId(), s.getCompartment(), bool(s.getHasOnlySubstanceUnits()),
                            "concentration" if s.isSetInitialConcentration() else "amount"]
                           for s in m.getListOfSpecies()],
@@ -962,6 +966,7 @@ def canon_doc(d):
     return {
         "params": d["params"], "species": d["species"], "inits": [cm(x) for x in d["inits"]],
         "compartments": d.get("compartments"), "species_attrs": d.get("species_attrs"),
+        "modifiers": d.get("modifiers"), "model_id": d.get("model_id"), "unit_ids": d.get("unit_ids"),
         "rules": sorted((cm(x) for x in d["rules"]), key=lambda kv: kv[0]),  # stable: duplicates keep document order
         "rxns": [{"id": r["id"], "reactants": r["reactants"], "products": r["products"], "law": canon_math(r["law"])}
                  for r in d["rxns"]],
@@ -1255,6 +1260,16 @@ def judge_case(ctx, case, R, M):
                     dd["species"] = [[k, None] for k, _ in dd["species"]]
             if json.dumps(rd, sort_keys=True) != json.dumps(md, sort_keys=True):
                 ctx.add_drift(small, rd, md, "written document differs from exportModel")
+    # 2a. SBML validity of the reactions: a species whose id appears in a kinetic law is listed as reactant, product or
+    #     modifier (L3v2 validation rule 21121) — the modifiers written are the law's variables that are not in the stoichiometry
+    if all(re.fullmatch(r"[A-Za-z][A-Za-z0-9_]*", n) for n in kinds["all"]):
+        var_names = set(kinds["vars"])
+        want = sorted([r["name"], sorted({a for a in r["fn"]["args"] if a in var_names} - {sp for sp, _ in r["stoich"]})]
+                      for r in desc["rxns"])
+        got = sorted([rid, sorted(set(ms))] for rid, ms in R["export"]["ok"].get("modifiers") or [])
+        mgot = None if M is None or m_exp != "ok" else sorted([rid, sorted(set(ms))] for rid, ms in M["export"]["ok"]["modifiers"])
+        ctx.judge(dict(small, what="modifiers"), got, want, mgot,
+                  what="a species used by a kinetic law is neither reactant, product nor modifier of the reaction (invalid SBML)")
     ident = {n: n for n in kinds["all"]}
     if case["kind"].startswith("unsupported:") and ("orig" not in R or "err" in R["orig"]):
         # a representable-but-usually-refused construct was exported and Python itself cannot evaluate it here
@@ -1294,6 +1309,27 @@ def judge_case(ctx, case, R, M):
     fid = case["finding"]
     if fid in ("F-C08-9", "F-C08-17", "F-C08-18"):
         Mv = None  # pysbml refuses booleans as numbers / reuses a component's name; the model does not predict the third party
+    if fid == "F-C08-5":
+        # names that need escaping come back renamed (known, third-party mapping) — but every reference has to resolve:
+        # the NUMBERS under the renamed names are judged on their own, without the licence of the finding
+        def nums(v):
+            return v if v is None or "err" in v else {"init": v["init"], "at": v["at"]}
+
+        def names(v):
+            return v if v is None or "err" in v else {"names": v["names"]}
+
+        def plain(n):
+            return bool(re.fullmatch(r"[A-Za-z][A-Za-z0-9_]*", n)) and "__" not in n and not keyword.iskeyword(n)
+
+        odd_species = {sp for r in desc["rxns"] for sp, c in r["stoich"] if c[0] == "fn" and not plain(sp)}
+        # (third party, F-C17-5: the id of a species reference is not renamed by the importer — a computed coefficient on
+        #  a species whose name needs escaping)
+        ctx.judge(dict(small, finding=None), nums(Rv), nums(S), nums(Mv) if not odd_species else None,
+                  finding="F-C08-20" if odd_species else None,
+                  what="export -> import of names that need escaping: a reference does not resolve / a number changes")
+        if "err" not in Rv:
+            ctx.judge(small, names(Rv), names(S), names(Mv), finding=fid, what="export -> import renames a component")
+        return
     ctx.judge(small, Rv, S, Mv, finding=fid, what="export -> import changes names, initial values, derived values, fluxes or derivatives")
 
 
@@ -1426,7 +1462,17 @@ def prepare(case):
 
 
 def evaluate(ctx, cases):
-    reqs = [{"op": "c08", "model": c["wire"], "states": c["states"], "compartments": c.get("compartments")} for c in cases]
+    from datetime import UTC, datetime
+
+    today = datetime.now(UTC).date().strftime("%Y-%m-%d")
+
+    def wopts(c):
+        o = c.get("options") or {}
+        return {"model_name": o.get("model_name") or "model", "date": today,
+                "unit_ids": ["mmol"] if o.get("units") else ["per_second"]}
+
+    reqs = [{"op": "c08", "model": c["wire"], "states": c["states"], "compartments": c.get("compartments"),
+             "write_opts": wopts(c)} for c in cases]
     Ms = driver.call_batch(reqs) if ctx.driver_ok else [None] * len(cases)
     jobs = [({k: c.get(k) for k in ("kind", "model", "states", "must_raise", "source", "prev", "prev_source", "compartments", "options")},
              dict(m["names"]) if m is not None else {}) for c, m in zip(cases, Ms)]
